@@ -51,6 +51,8 @@ Section Proofs.
   Notation save_step := (save_step D P empty rd wr g sh).
   Notation save_todo := (save_todo D P g sh).
   Notation save := (save D P empty rd wr g sh).
+  Notation save_step_a := (save_step_a D P empty rd wr g sh).
+  Notation save_a := (save_a D P empty rd wr g sh).
   Notation denote := (denote D P rd g).
   Notation fresh := (fresh D P).
   Notation owned := (owned g).
@@ -68,6 +70,66 @@ Section Proofs.
 
   Lemma save_fresh_id : forall s : state, fresh s -> save s = (true, s).
   Proof. intros s Hf. unfold save, LazyLumps.save. now apply save_steps_fresh. Qed.
+
+  (** BSP.save with an except clause around the writer call ([save_a], round 5) differs from the plain loop only in the
+      state it leaves behind when a writer raises. *)
+  Lemma save_step_a_flag : forall b acc k, fst (save_step_a b acc k) = fst (save_step acc k).
+  Proof.
+    intros b [f s] k. unfold LazyLumps.save_step_a, LazyLumps.save_step. cbn [fst snd].
+    destruct f; [|reflexivity]. destruct (cache s k); [|reflexivity].
+    destruct (look_all get (v_wdeps (decl k)) (set_cache k None s)) as [b2 s2]. cbn [fst snd]. destruct b2; reflexivity.
+  Qed.
+
+  Lemma save_step_a_true : forall b acc k, fst (save_step acc k) = true -> save_step_a b acc k = save_step acc k.
+  Proof.
+    intros b [f s] k. unfold LazyLumps.save_step_a, LazyLumps.save_step. cbn [fst snd].
+    destruct f; [|reflexivity]. destruct (cache s k); [|reflexivity].
+    destruct (look_all get (v_wdeps (decl k)) (set_cache k None s)) as [b2 s2]. cbn [fst snd]. destruct b2; [reflexivity | discriminate].
+  Qed.
+
+  Lemma save_step_a_false_eq : forall acc k, save_step_a false acc k = save_step acc k.
+  Proof.
+    intros [f s] k. unfold LazyLumps.save_step_a, LazyLumps.save_step. cbn [fst snd].
+    destruct f; [|reflexivity]. destruct (cache s k); [|reflexivity].
+    destruct (look_all get (v_wdeps (decl k)) (set_cache k None s)) as [b2 s2]. cbn [fst snd]. destruct b2; reflexivity.
+  Qed.
+
+  Lemma save_step_a_stopped : forall b acc k, fst acc = false -> save_step_a b acc k = acc.
+  Proof. intros b [f s] k H. cbn [fst] in H. subst f. reflexivity. Qed.
+
+  Lemma save_step_stopped : forall acc k, fst acc = false -> save_step acc k = acc.
+  Proof. intros [f s] k H. cbn [fst] in H. subst f. reflexivity. Qed.
+
+  Lemma save_steps_a_rel : forall b l acc acc', fst acc = fst acc' -> (fst acc' = true -> acc = acc') ->
+    let r := fold_left (save_step_a b) l acc in let r' := fold_left save_step l acc' in
+    fst r = fst r' /\ (fst r' = true -> r = r').
+  Proof.
+    intros b. induction l as [|a l IH]; intros acc acc' Hf He; cbn [fold_left]; [split; assumption|].
+    apply IH.
+    - destruct (fst acc') eqn:E.
+      + rewrite (He eq_refl). apply save_step_a_flag.
+      + rewrite (save_step_a_stopped b acc a Hf), (save_step_stopped acc' a E). congruence.
+    - intros Ht. destruct (fst acc') eqn:E.
+      + rewrite (He eq_refl). now apply save_step_a_true.
+      + rewrite (save_step_stopped acc' a E) in Ht. congruence.
+  Qed.
+
+  (** Whether the save completes does not depend on the except clause, and a save that completes is the plain save. *)
+  Lemma save_a_like_save : forall b s, fst (save_a b s) = fst (save s) /\ (fst (save s) = true -> save_a b s = save s).
+  Proof.
+    intros b s. unfold LazyLumps.save_a, LazyLumps.save.
+    exact (save_steps_a_rel b (save_todo s) (true, s) (true, s) eq_refl (fun _ => eq_refl)).
+  Qed.
+
+  Lemma save_a_false_is_save : forall s, save_a false s = save s.
+  Proof.
+    intros s. unfold LazyLumps.save_a, LazyLumps.save. generalize (true, s). induction (save_todo s) as [|a l IH]; intros acc; cbn [fold_left]; [reflexivity|].
+    rewrite save_step_a_false_eq. apply IH.
+  Qed.
+
+  Lemma save_a_summary : forall b s, fst (save_a b s) = fst (save s) /\ (fst (save s) = true -> save_a b s = save s) /\
+    save_a false s = save s.
+  Proof. intros b s. destruct (save_a_like_save b s) as [A B]. split; [exact A | split; [exact B | apply save_a_false_is_save]]. Qed.
 
   Lemma own_overflow : forall v, nviews <= v -> own v = [].
   Proof. intros v H. unfold LazyLumps.own, LazyLumps.decl. rewrite nth_overflow; [reflexivity | exact H]. Qed.
@@ -398,6 +460,92 @@ Section Proofs.
         destruct (save_steps_inv nviews 0 (true, s) ltac:(lia) (fun _ => HI)) as [H1 H2]. cbv zeta in H1, H2.
         split; [exact H1 | intros Hwg; now apply H2].
       Qed.
+
+      (** An aborted save with the except clause ([restore = true]): the step that raises leaves the invariant of its own
+          position intact (the popped view is cached again, the views looked at meanwhile are cached, nothing else moved). *)
+      Lemma save_step_a_inv : forall k acc, k < nviews -> fst acc = true -> Inv k k (snd acc) ->
+        let r := save_step_a true acc k in
+        (fst r = true -> Inv (S k) (S k) (snd r)) /\ (fst r = false -> Inv k k (snd r)).
+      Proof.
+        intros k [b s] Hk Hb HI. cbn [fst snd] in Hb, HI. subst b. cbv zeta. split.
+        - intros Ht. rewrite save_step_a_flag in Ht. rewrite (save_step_a_true true (true, s) k Ht).
+          exact (proj1 (save_step_inv k (true, s) Hk (fun _ => HI)) Ht).
+        - unfold LazyLumps.save_step_a. cbn [fst snd].
+          destruct HI as (Ha & Hb & Hc & Hd).
+          destruct (cache s k) as [p|] eqn:Ec; [|cbn [fst]; discriminate].
+          assert (HRk : R k /\ good k /\ pv k = Some p).
+          { destruct (Hc k (le_n k) Hk) as [[Hn _]|(HR & Hg & Hs)]; [congruence|]. split; [exact HR | split; [exact Hg | congruence]]. }
+          destruct HRk as (HRk & Hgk & Hpk).
+          set (s1 := set_cache k None s).
+          assert (HI1 : Inv k (S k) s1).
+          { split; [|split; [|split; [|exact Hd]]].
+            - intros v Hv. unfold s1, LazyLumps.set_cache, upd. cbn [cache].
+              destruct (Nat.eqb v k) eqn:E; [reflexivity | auto].
+            - intros v Hv. destruct (Hb v Hv) as [A B]. split; [|exact B].
+              unfold s1, LazyLumps.set_cache, upd. cbn [cache]. destruct (Nat.eqb v k); [reflexivity | exact A].
+            - intros v Hv Hvn. unfold s1, LazyLumps.set_cache, upd. cbn [cache].
+              destruct (Nat.eqb v k) eqn:E; [apply Nat.eqb_eq in E; lia|]. apply (Hc v ltac:(lia) Hvn). }
+          assert (Hwd : forall d, In d (v_wdeps (decl k)) -> k < d /\ d < nviews).
+          { intros d Hd'. apply (deps_gt k d Hk). apply in_or_app; auto. }
+          assert (Hlook : forall d s', In d (v_wdeps (decl k)) -> Inv k (S k) s' -> get_post k (S k) d s' (get d s')).
+          { intros d s' Hd' HI'. assert (Hin : In d (v_rdeps (decl k) ++ v_wdeps (decl k))) by (apply in_or_app; auto).
+            destruct (deps_gt k d Hk Hin). unfold LazyLumps.get.
+            apply get_spec; [lia | exact HI' | lia | exact (Rclosed k d Hk HRk Hin) | lia]. }
+          pose proof (look_all_spec get k (S k) k (v_wdeps (decl k)) Hlook Hwd s1 HI1) as Hfold. cbv zeta in Hfold.
+          destruct (look_all get (v_wdeps (decl k)) s1) as [b2 s2] eqn:El. cbn [fst snd] in *.
+          destruct Hfold as ((Ha2 & Hb2 & Hc2 & Hd2) & Hfr2 & _).
+          destruct b2; cbn [fst snd]; [discriminate|]. intros _.
+          split; [|split; [|split]].
+          + intros v Hv. unfold LazyLumps.set_cache, upd. cbn [cache].
+            destruct (Nat.eqb v k) eqn:E; [apply Nat.eqb_eq in E; lia | auto].
+          + intros v Hv. destruct (Hb2 v Hv) as [A B]. split; [|exact B].
+            unfold LazyLumps.set_cache, upd. cbn [cache]. destruct (Nat.eqb v k) eqn:E; [apply Nat.eqb_eq in E; lia | exact A].
+          + intros v Hv Hvn. destruct (Nat.eq_dec v k) as [->|Hne].
+            * right. split; [exact HRk|]. split; [exact Hgk|].
+              unfold LazyLumps.set_cache, upd. cbn [cache]. rewrite Nat.eqb_refl. now rewrite Hpk.
+            * unfold LazyLumps.set_cache, upd. cbn [cache]. destruct (Nat.eqb v k) eqn:E; [apply Nat.eqb_eq in E; contradiction|].
+              exact (Hc2 v ltac:(lia) Hvn).
+          + exact Hd2.
+      Qed.
+
+      Lemma save_steps_a_inv : forall m k acc, k + m = nviews -> (fst acc = true -> Inv k k (snd acc)) ->
+        (fst acc = false -> exists j, j <= nviews /\ Inv j j (snd acc)) ->
+        let r := fold_left (save_step_a true) (seq k m) acc in
+        exists j, j <= nviews /\ Inv j j (snd r) /\ (fst r = true -> j = nviews).
+      Proof.
+        induction m as [|m IH]; intros k acc Hkm Ht Hf; cbn [seq fold_left].
+        - destruct (fst acc) eqn:E.
+          + exists k. split; [lia|]. split; [now apply Ht | intros _; lia].
+          + destruct (Hf eq_refl) as (j & Hj & HI). exists j. split; [exact Hj|]. split; [exact HI | discriminate].
+        - apply IH; [lia| |].
+          + intros Hs. destruct (fst acc) eqn:E.
+            * exact (proj1 (save_step_a_inv k acc ltac:(lia) E (Ht eq_refl)) Hs).
+            * rewrite (save_step_a_stopped true acc k E) in Hs. congruence.
+          + intros Hs. destruct (fst acc) eqn:E.
+            * exists k. split; [lia|]. exact (proj2 (save_step_a_inv k acc ltac:(lia) E (Ht eq_refl)) Hs).
+            * rewrite (save_step_a_stopped true acc k E). exact (Hf eq_refl).
+      Qed.
+
+      Lemma save_a_inv : forall s, Inv 0 0 s ->
+        exists j, j <= nviews /\ Inv j j (snd (save_a true s)) /\ (fst (save_a true s) = true -> j = nviews).
+      Proof.
+        intros s HI. unfold LazyLumps.save_a. rewrite save_todo_std.
+        exact (save_steps_a_inv nviews 0 (true, s) ltac:(lia) (fun _ => HI) ltac:(discriminate)).
+      Qed.
+
+      (** What the object denotes in a state where the views below [j] have been saved and the others are untouched or cached. *)
+      Lemma inv_mid_denote : forall j s, Inv j j s ->
+        (forall v p, v < nviews -> pv v = Some p -> rd v (wr v p) = Some p) ->
+        forall v, v < nviews -> denote s v = pv v.
+      Proof.
+        intros j s (_ & Hb & Hc & _) Hcodec v Hv. unfold LazyLumps.denote.
+        destruct (Nat.lt_ge_cases v j) as [Hlt|Hge].
+        - destruct (Hb v Hlt) as [Hn [Ho|(_ & p & Hp & Ho)]]; rewrite Hn, Ho; [reflexivity|].
+          rewrite Hp. now apply Hcodec.
+        - destruct (Hc v Hge Hv) as [[Hn Ho]|(_ & Hg & Hs)].
+          + rewrite Hn. unfold pv. now rewrite Ho.
+          + apply good_pv in Hg. rewrite Hs. destruct (pv v); [reflexivity | contradiction].
+      Qed.
     End Run.
 
     (** ------------------------------------------------------------------ exported statements *)
@@ -556,6 +704,115 @@ Section Proofs.
       destruct (H1 Ht) as (Ha & Hb & _ & _).
       intros v. destruct (Nat.lt_ge_cases v nviews) as [Hv|Hv]; [apply Hb, Hv | apply Ha, Hv].
     Qed.
+
+    (** A save that raises half-way (a writer looks at a view that cannot be parsed), with the except clause that puts the
+        popped view back: whether or not it completes, the object afterwards denotes for every view what the file held, and
+        lumps without a view are untouched.  (The caller can carry on: nothing the property can observe was lost.) *)
+    Theorem aborted_save_keeps_content : forall s0 accs, fresh s0 -> wr_len_ok s0 -> codec_ok s0 ->
+      let r := save_a true (run accs s0) in
+      (forall v, v < nviews -> denote (snd r) v = rd v (own_data s0 v)) /\ (forall l, ~ owned l -> raw (snd r) l = raw s0 l).
+    Proof.
+      intros s0 accs Hf Hlen Hcodec r.
+      destruct (save_a_inv s0 (fun _ => True) closed_all Hlen (run accs s0) (inv_run_all s0 accs Hf)) as (j & Hj & HI & _).
+      fold r in HI. split.
+      - intros v Hv. exact (inv_mid_denote s0 (fun _ => True) j (snd r) HI (fun v p Hv' Hp => Hcodec v p Hv' Hp) v Hv).
+      - destruct HI as (_ & _ & _ & Hd). exact Hd.
+    Qed.
+
+    (** ... and the caller can carry on: after a save that may have raised half-way (with the except clause), ANY further
+        looks and a save that completes are lossless with respect to the original file.  The state after the aborted save
+        is an ordinary "looked-at" state of another file [ref_after]: the lumps of the views still cached are those of the
+        original, every other lump is what the object holds now (rewritten by the writers that already ran). *)
+    Definition cached_owner (s : state) (l : nat) : bool :=
+      existsb (fun v => is_cached D P s v && mem l (own v)) (seq 0 nviews).
+    Definition ref_after (s0 s : state) : state :=
+      mkS (fun l => if cached_owner s l then raw s0 l else raw s l) (fun _ => None).
+
+    Lemma cached_owner_own : forall (s : state) v l, v < nviews -> In l (own v) -> cached_owner s l = is_cached D P s v.
+    Proof.
+      intros s v l Hv Hl. unfold cached_owner. destruct (is_cached D P s v) eqn:E.
+      - apply existsb_exists. exists v. split; [apply in_seq; lia|]. rewrite E. cbn [andb]. now apply mem_In.
+      - destruct (existsb _ _) eqn:Ex; [|reflexivity]. apply existsb_exists in Ex. destruct Ex as (w & Hw & Hb).
+        apply in_seq in Hw. apply andb_prop in Hb. destruct Hb as [Hc Hm]. apply mem_In in Hm.
+        destruct (Nat.eq_dec w v) as [->|Hne]; [congruence|].
+        exfalso. exact (own_disj w v l ltac:(lia) Hv Hne Hm Hl).
+    Qed.
+
+    Lemma ref_after_own_data : forall (s0 s : state) v, v < nviews ->
+      own_data (ref_after s0 s) v = if is_cached D P s v then own_data s0 v else own_data s v.
+    Proof.
+      intros s0 s v Hv. unfold LazyLumps.own_data at 1. cbn [raw ref_after].
+      destruct (is_cached D P s v) eqn:E; unfold LazyLumps.own_data; apply map_ext_in; intros l Hl;
+        rewrite (cached_owner_own s v l Hv Hl), E; reflexivity.
+    Qed.
+
+    Lemma ref_after_unowned : forall (s0 s : state) l, ~ owned l -> raw (ref_after s0 s) l = raw s l.
+    Proof.
+      intros s0 s l Hl. cbn [raw ref_after]. destruct (cached_owner s l) eqn:E; [|reflexivity].
+      exfalso. apply Hl. unfold cached_owner in E. apply existsb_exists in E. destruct E as (w & Hw & Hb).
+      apply in_seq in Hw. apply andb_prop in Hb. destruct Hb as [_ Hm]. apply mem_In in Hm. exists w. split; [lia | exact Hm].
+    Qed.
+
+    Lemma ref_after_pv : forall (s0 s : state) j, codec_ok s0 -> Inv s0 (fun _ => True) j j s ->
+      forall v, v < nviews -> pv (ref_after s0 s) v = pv s0 v.
+    Proof.
+      intros s0 s j Hcodec (_ & Hb & Hc & _) v Hv. unfold pv. rewrite (ref_after_own_data s0 s v Hv).
+      unfold LazyLumps.is_cached.
+      destruct (Nat.lt_ge_cases v j) as [Hlt|Hge].
+      - destruct (Hb v Hlt) as [Hn [Ho|(_ & p & Hp & Ho)]]; rewrite Hn, Ho; [reflexivity|].
+        unfold pv in Hp. rewrite Hp. now apply Hcodec.
+      - destruct (Hc v Hge Hv) as [[Hn Ho]|(_ & Hg & Hs)].
+        + rewrite Hn, Ho. reflexivity.
+        + apply good_pv in Hg. destruct (cache s v); [reflexivity | exfalso; apply Hg; now rewrite <- Hs].
+    Qed.
+
+    Lemma ref_after_good : forall (s0 s : state) j, codec_ok s0 -> Inv s0 (fun _ => True) j j s ->
+      forall v, v < nviews -> good s0 v -> good (ref_after s0 s) v.
+    Proof.
+      intros s0 s j Hcodec HI v Hv Hg. revert Hv. induction Hg as [v Hp Hd IH]. intros Hv. constructor.
+      - rewrite (ref_after_pv s0 s j Hcodec HI v Hv). exact Hp.
+      - intros d Hin. apply IH; [exact Hin|]. apply (deps_gt v d Hv). apply in_or_app. now left.
+    Qed.
+
+    Lemma ref_after_inv : forall (s0 s : state) j, codec_ok s0 -> Inv s0 (fun _ => True) j j s ->
+      Inv (ref_after s0 s) (fun _ => True) 0 0 s.
+    Proof.
+      intros s0 s j Hcodec HI. pose proof HI as (Ha & Hb & Hc & Hd). split; [exact Ha|]. split; [intros v Hv; lia|]. split.
+      - intros v _ Hv. rewrite (ref_after_own_data s0 s v Hv), (ref_after_pv s0 s j Hcodec HI v Hv). unfold LazyLumps.is_cached.
+        destruct (Nat.lt_ge_cases v j) as [Hlt|Hge].
+        + destruct (Hb v Hlt) as [Hn _]. rewrite Hn. left. split; reflexivity.
+        + destruct (Hc v Hge Hv) as [[Hn Ho]|(_ & Hg & Hs)].
+          * rewrite Hn. left. split; reflexivity.
+          * right. split; [exact I|]. split; [exact (ref_after_good s0 s j Hcodec HI v Hv Hg) | exact Hs].
+      - intros l Hl. now rewrite ref_after_unowned.
+    Qed.
+
+    Theorem retry_after_aborted_save_lossless : forall s0 accs accs2, fresh s0 -> wr_len_ok s0 -> codec_ok s0 ->
+      let r := save_a true (run accs s0) in
+      let r2 := save_a true (run accs2 (snd r)) in
+      fst r2 = true -> fresh (snd r2) /\ same_content (snd r2) s0.
+    Proof.
+      intros s0 accs accs2 Hf Hlen Hcodec r r2 Ht.
+      destruct (save_a_inv s0 (fun _ => True) closed_all Hlen (run accs s0) (inv_run_all s0 accs Hf)) as (j & Hj & HI & _).
+      fold r in HI. set (s1 := ref_after s0 (snd r)).
+      assert (Hsame : same_content s1 s0).
+      { split.
+        - intros v Hv. exact (ref_after_pv s0 (snd r) j Hcodec HI v Hv).
+        - intros l Hl. unfold s1. rewrite ref_after_unowned by exact Hl. destruct HI as (_ & _ & _ & Hd). exact (Hd l Hl). }
+      destruct (fresh_same_hyps s1 s0 Hsame Hlen Hcodec) as [Hlen1 Hcodec1].
+      assert (HI1 : Inv s1 (fun _ => True) 0 0 (run accs2 (snd r))).
+      { apply (run_inv s1 (fun _ => True) closed_all); [intros; exact I | exact (ref_after_inv s0 (snd r) j Hcodec HI)]. }
+      destruct (save_a_like_save true (run accs2 (snd r))) as [Hfl Heq]. fold r2 in Hfl, Heq.
+      rewrite Hfl in Ht. rewrite (Heq Ht).
+      destruct (save_inv s1 (fun _ => True) closed_all Hlen1 (run accs2 (snd r)) HI1) as [H1 _].
+      destruct (H1 Ht) as (Ha & Hb & _ & Hd).
+      assert (Hfr : fresh (snd (save (run accs2 (snd r))))).
+      { intros v. destruct (Nat.lt_ge_cases v nviews) as [Hv|Hv]; [apply Hb, Hv | apply Ha, Hv]. }
+      split; [exact Hfr|]. destruct Hsame as [Hp Hu]. split.
+      - intros v Hv. rewrite <- (Hp v Hv). destruct (Hb v Hv) as [_ [Ho|(_ & p & Hpp & Ho)]]; rewrite Ho; [reflexivity|].
+        unfold pv in Hpp. rewrite Hpp. apply Hcodec1; assumption.
+      - intros l Hl. rewrite (Hd l Hl). exact (Hu l Hl).
+    Qed.
   End Consistent.
 End Proofs.
 
@@ -666,4 +923,20 @@ Example snapshot_save_refuted :
   order_consistent g_wdep = true /\ shape_ok sh = false /\ raw ex_s0 1 = 2 /\
   fst r = true /\ raw (snd r) 1 = 0 /\ cache (snd r) 1 = Some [2] /\
   raw (snd (ex_save g_wdep std_shape (ex_run g_wdep std_shape [0] ex_s0))) 1 = 2.
+Proof. vm_compute. repeat split; reflexivity. Qed.
+
+(** BSP.save without the except clause (round 5: the pinned tree before the fix): the writer of view 0 looks at view 1, whose
+    lumps are malformed ([ex_bad]); the reader of view 0 does not.  Looking at view 0 succeeds (lump 0 is cleared, the value
+    cached); save pops view 0, its writer raises, the popped value is gone; the caller carries on and saves again: that save
+    completes and lump 0 is written empty.  With the except clause the view is cached again, the second save raises like
+    the first and the object still denotes the file's content. *)
+Definition g_wabort : graph := [ mkV [0] [] [1] [0]; mkV [2; 3] [] [] [2; 3] ].
+Notation ex_save_a g sh b := (save_a nat (list nat) 0 ex_rd ex_wr g sh b).
+Example aborted_save_drops_view_refuted :
+  let s := ex_run g_wabort std_shape [0] ex_bad in
+  let r := ex_save_a g_wabort std_shape false s in let r2 := ex_save_a g_wabort std_shape false (snd r) in
+  let q := ex_save_a g_wabort std_shape true s in let q2 := ex_save_a g_wabort std_shape true (snd q) in
+  order_consistent g_wabort = true /\ raw ex_bad 0 = 1 /\ cache s 0 = Some [1] /\
+  fst r = false /\ cache (snd r) 0 = None /\ raw (snd r) 0 = 0 /\ fst r2 = true /\ raw (snd r2) 0 = 0 /\
+  fst q = false /\ cache (snd q) 0 = Some [1] /\ fst q2 = false /\ cache (snd q2) 0 = Some [1].
 Proof. vm_compute. repeat split; reflexivity. Qed.
